@@ -69,12 +69,15 @@ inline void make_ep(ep_key& k, bool longk) {
     yk_assume(k.len <= (longk ? 264u : (unsigned) YK_EPB));
 }
 inline std::string_view sv(const ep_key& k) { return std::string_view(reinterpret_cast<const char*>(k.b), k.len); }
-struct request {
-    ep_key l, r;
+template<class K>
+struct requestT {
+    K l, r;
     scan_endpoint le, re;
     std::size_t max_size;
     bool rtl;
 };
+using request = requestT<sym_key>;       // endpoint keys of 0..YK_EPB bytes
+using request_long = requestT<ep_key>;   // endpoint keys of 0..264 bytes
 inline scan_endpoint mk_endpoint() {
     unsigned e = yk_nondet_u8();
     yk_assume(e < 3);
@@ -82,19 +85,29 @@ inline scan_endpoint mk_endpoint() {
 }
 // LE/RE: 0 EXCLUSIVE, 1 INCLUSIVE, 2 INF, 3 symbolic (case split of the request over queries: each query is smaller)
 inline scan_endpoint endpoint_of(unsigned e) { return e == 0 ? scan_endpoint::EXCLUSIVE : (e == 1 ? scan_endpoint::INCLUSIVE : scan_endpoint::INF); }
-inline void mk_request(request& q, unsigned max_max, unsigned LE = 3, unsigned RE = 3, unsigned RTL = 2, bool longk = false) {
-    make_ep(q.l, longk);
-    make_ep(q.r, longk);
-    yk_assume(q.l.len <= 16 || q.r.len <= 16); // at most one of the two endpoint keys is long (bound of the memcmp model)
+template<class Q>
+inline void mk_request_rest(Q& q, unsigned max_max, unsigned LE, unsigned RE, unsigned RTL) {
     q.le = LE == 3 ? mk_endpoint() : endpoint_of(LE);
     q.re = RE == 3 ? mk_endpoint() : endpoint_of(RE);
     q.max_size = yk_nondet_u8();
     yk_assume(q.max_size <= max_max);
     q.rtl = RTL == 2 ? (bool) yk_nondet_bool() : RTL == 1;
 }
+inline void mk_request(request& q, unsigned max_max, unsigned LE = 3, unsigned RE = 3, unsigned RTL = 2) {
+    make_key<YK_EPB>(q.l);
+    make_key<YK_EPB>(q.r);
+    mk_request_rest(q, max_max, LE, RE, RTL);
+}
+inline void mk_request(request_long& q, unsigned max_max, unsigned LE = 3, unsigned RE = 3, unsigned RTL = 2) {
+    make_ep(q.l, true);
+    make_ep(q.r, true);
+    yk_assume(q.l.len <= 16 || q.r.len <= 16); // at most one of the two endpoint keys is long (bound of the memcmp model)
+    mk_request_rest(q, max_max, LE, RE, RTL);
+}
 // the documented invalid requests (kvs.h, note of scan): r < l or l == r with an exclusive end (both ends finite);
 // empty r_key with an exclusive right end; right_to_left with a bounded right end or max_size != 1
-inline bool ref_bad_usage(const request& q) {
+template<class Q>
+inline bool ref_bad_usage(const Q& q) {
     bool fin = q.le != scan_endpoint::INF && q.re != scan_endpoint::INF;
     int c = cmp_bytes(q.l.b, (unsigned) q.l.len, q.r.b, (unsigned) q.r.len);
     if (fin && c > 0) return true;
@@ -103,7 +116,8 @@ inline bool ref_bad_usage(const request& q) {
     if (q.rtl && (q.re != scan_endpoint::INF || q.max_size != 1)) return true;
     return false;
 }
-inline bool ref_in_range(const went& x, const request& q) {
+template<class Q>
+inline bool ref_in_range(const went& x, const Q& q) {
     if (q.le != scan_endpoint::INF) { // an INF endpoint ignores the key passed with it
         int c = cmp_bytes(x.b, x.len, q.l.b, (unsigned) q.l.len);
         if (c < 0 || (c == 0 && q.le == scan_endpoint::EXCLUSIVE)) return false;
@@ -123,8 +137,8 @@ inline bool same_key(const std::string& s, const went& x) {
 
 // runs the real scan and compares with the reference; returns through `res`/`nv` for the C05 continuation.
 // W = number of entries of walk(tree) (concrete), w ascending by construction of the shape.
-template<unsigned W>
-inline bool run_scan(tree_instance* ti, const went* w, const request& q, std::vector<tuple_t>& res, std::vector<nv_t>& nv, status& rc) {
+template<unsigned W, class Q>
+inline bool run_scan(tree_instance* ti, const went* w, const Q& q, std::vector<tuple_t>& res, std::vector<nv_t>& nv, status& rc) {
     res.reserve(W + 1);
     nv.reserve(W + 3);
     rc = scan<char>(ti, sv(q.l), q.le, sv(q.r), q.re, res, &nv, q.max_size, q.rtl);
@@ -186,8 +200,8 @@ inline void t1_scan() {
     went w[N];
     unsigned nw = 0;
     walk_border<N>(st, w, nw, nullptr, 0);
-    request q;
-    mk_request(q, N + 1, LE, RE, RTL, LONGK);
+    std::conditional_t<LONGK, request_long, request> q;
+    mk_request(q, N + 1, LE, RE, RTL);
     std::vector<tuple_t> res;
     std::vector<nv_t> nv;
     status rc;
@@ -445,5 +459,7 @@ YK_ENTRY(H_c05_scan_put_t2_a1m1, (t2_scan_then_put<1, 0, 1>()))
 YK_ENTRY(H_c05_scan_put_t2_a1m2, (t2_scan_then_put<1, 0, 2>()))
 YK_ENTRY(H_c05_scan_put_t2_a2l1m1, (t2_scan_then_put<2, 1, 1>()))
 YK_ENTRY(H_scan_t3_11, (t3_scan<1, 1>()))
+YK_ENTRY(H_scan_t3_11_linf, (t3_scan<1, 1, 2, 3, 0>()))
+YK_ENTRY(H_scan_t3_11_lfin, (t3_scan<1, 1, 1, 3, 0>()))
 YK_ENTRY(H_scan_t3_12, (t3_scan<1, 2>()))
 YK_ENTRY(H_c05_scan_put_t3_11, (t3_scan_then_put<1, 1>()))
